@@ -62,6 +62,7 @@ def build(rng, members: list[dict], *, data_order: str = "shuffle", align: int =
     -> (bytes, expected) where expected = [(name, kind, size, data|linkname)] in header order.
     """
     hdrs = []  # list of (bytes | ("visor", member index))
+    std_data_at = {}  # member index of an inline member -> index in hdrs of its data blocks
     expected = []
     visor_files = []
     for i, m in enumerate(members):
@@ -110,6 +111,7 @@ def build(rng, members: list[dict], *, data_order: str = "shuffle", align: int =
         elif kind == "std":
             data = m["data"]
             hdrs.append(header(nb, len(data), m.get("typeflag", b"0"), visor=False, prefix=prefix, gnu=not prefix and rng.random() < 0.5))
+            std_data_at[i] = len(hdrs)
             hdrs.append(data.ljust(-(-len(data) // 512) * 512, b"\0"))
             expected.append((name, "file", len(data), data))
         else:
@@ -125,6 +127,18 @@ def build(rng, members: list[dict], *, data_order: str = "shuffle", align: int =
         order.reverse()
     offs = {}
     blobs = []
+    # visor members whose data offset points back into the header area (at the inline data of an earlier ordinary member):
+    # the recorded offset is absolute, it may well be smaller than the offset of the member's own header
+    hpos, acc = [], 0
+    for h in hdrs:
+        hpos.append(acc)
+        acc += 512 if isinstance(h, tuple) else len(h)
+    for i in list(order):
+        src = members[i].get("alias_of")
+        if src is not None and src in std_data_at and src < i:
+            delta = members[i].get("alias_delta", 0)
+            offs[i] = hpos[std_data_at[src]] + delta
+            order.remove(i)
     for i in order:
         d = members[i]["data"]
         if members[i].get("share") is not None and members[i]["share"] in offs and members[members[i]["share"]]["data"] == d:
